@@ -3,12 +3,12 @@ NEXT Next
 VIEW view
 CONSTANTS
   Variant = ""
-  PNorm <- TokCI
+  PNorm <- TokCIt
   PLit <- NoChars
-  PMacro <- MacCI
-  PLen = 3
-  SAlpha <- StrCI
-  SLen = 2
+  PMacro <- MacCIt
+  PLen = 2
+  SAlpha <- StrCIq
+  SLen = 3
   CfgSel = "ci"
   Kind = "match"
 INVARIANT Emit
